@@ -152,9 +152,84 @@ class Lattice(Part):
         return "bench:%s:%s" % (case.get("family", case["kind"]), fail["clause"])
 
 
+class Reentrant(Part):
+    """the benchmark is a function of the point also when several threads evaluate on ONE problem object (artap's own
+    parallel evaluation does exactly that): lattice points evaluated concurrently must give the exact lattice values"""
+    name = "concurrent"
+    trace_module = "BenchTrace"
+
+    def cases(self, ctx):
+        rng = ctx.rng
+        cases = []
+        for family in ("dtlz1", "dtlz2", "dtlz3", "dtlz4"):
+            for m in (2, 3):
+                for rep in range(1 if ctx.quick else 6):
+                    pts = []
+                    angles = ANGLES1 if family == "dtlz1" else ANGLES2
+                    for _ in range(240):
+                        pts.append({"pos": [list(rng.choice(angles)) for _ in range(m - 1)], "dist": [rng.randrange(5) for _ in range(10)]})
+                    cases.append({"kind": "threads", "family": family, "m": m, "points": pts})
+        return cases
+
+    def run_case(self, ctx, case):
+        import sys
+        import threading
+        from artap import benchmark_pareto as bp
+        from artap.individual import Individual
+        family, m = case["family"], case["m"]
+        cls = {"dtlz1": bp.DTLZI, "dtlz2": bp.DTLZII, "dtlz3": bp.DTLZIII, "dtlz4": bp.DTLZIV}[family]
+        prob = cls(dimension=m + 9, m=m)
+        xs = []
+        for p in case["points"]:
+            x = []
+            for c, s_, d in p["pos"]:
+                if family == "dtlz1":
+                    x.append(c / d)
+                else:
+                    theta = 2.0 / math.pi * math.atan2(s_, c)
+                    x.append(theta ** 0.01 if family == "dtlz4" else theta)
+            xs.append(x + [q / 4.0 for q in p["dist"]])
+        results = [None] * len(xs)
+        nthreads = 4
+        barrier = threading.Barrier(nthreads)
+
+        def work(t):
+            barrier.wait()
+            for i in range(t, len(xs), nthreads):
+                results[i] = observe(prob.evaluate, Individual(list(xs[i])))
+        old = sys.getswitchinterval()
+        sys.setswitchinterval(1e-6)          # force frequent thread switches inside evaluate()
+        try:
+            ths = [threading.Thread(target=work, args=(t,)) for t in range(nthreads)]
+            for t in ths:
+                t.start()
+            for t in ths:
+                t.join()
+        finally:
+            sys.setswitchinterval(old)
+        trace = []
+        for p, x, (st, res) in zip(case["points"], xs, results):
+            ev = {"ev": "point", "family": family, "m": m, "pos": p["pos"], "dist": p["dist"], "f": [], "n": len(x), "exact": True, "exc": ""}
+            if st == "exc":
+                ev["exc"] = res
+            else:
+                for v in res:
+                    fr, ok = small_rational(v)
+                    ev["exact"] = ev["exact"] and ok
+                    ev["f"].append([fr.numerator, fr.denominator] if ok else [0, 1])
+            trace.append(ev)
+        return trace
+
+    def key(self, case, trace, fail):
+        return "bench-concurrent:%s:%s" % (case["family"], fail["clause"])
+
+    def sample(self, case, trace):
+        return {"case": {"kind": "threads", "family": case["family"], "m": case["m"]}, "trace": trace[:2]}
+
+
 def run(ctx, replay=None):
     return core.run_property(
-        ctx, [Lattice()], level="model_checking",
+        ctx, [Lattice(), Reentrant()], level="model_checking",
         assumptions=["lattice: distance variables at multiples of 1/4 (g exact), position variables at 0, 1 and Pythagorean angles "
                      "(cos and sin rational) resp. dyadic values for DTLZ1; the implementation's floats must lie within 2e-11 (relative) of a "
                      "rational with denominator <= 80000, which is then compared exactly",
